@@ -3,7 +3,9 @@
    liquid/context.py it runs under (RenderContext.extend: scope size; RenderContext.copy: copy depth).
    Executable definitions only -- no proofs in this file.
 
-   Part 1: the transcription of the code (block stacks with parent links, BlockNode.render, block.super).
+   Part 1: the transcription of the code (block stacks with parent links, BlockNode.render, block.super), with the
+           engine-wide blank-body rule of liquid/ast.py (BlockNode: a body all of whose nodes are blank is rendered into a
+           null buffer) for the bodies of this fragment; the block tag itself is never blank.
    Part 2: the specification, written independently: `first_def` searches the chain for the most-derived
            definition; no stacks, no parent links, no depth counters. *)
 From Coq Require Import String Ascii.
@@ -15,7 +17,7 @@ Definition lit (x : string) : str := map N_of_ascii (list_ascii_of_string x).
 Inductive node :=
 | Text (s : str)
 | Var (x : str)                                          (* {{ x }} ; an unbound name prints nothing *)
-| Super                                                  (* {{ block.super }} *)
+| Super (up : bool)                                      (* {{ block.super }} ; up: {{ block.super | upcase }} *)
 | Block (name : str) (required : bool) (endname : option str) (body : list node)
                                                          (* {% block name [required] %} body {% endblock [endname] %} *)
 | For (x : str) (items : list Z) (body : list node).     (* {% for x in ... %} body {% endfor %} *)
@@ -124,6 +126,39 @@ Fixpoint build (fuel : nat) (ld : loader) (seen : list str) (st : stacks) (t : t
       end
   end.
 
+(* ------------------------------------------------------------------------------ blank block bodies *)
+(* str.isspace() of CPython 3.12, per code point *)
+Definition is_space_char (c : N) : bool :=
+  ((9 <=? c) && (c <=? 13) || (28 <=? c) && (c <=? 32) || (c =? 133) || (c =? 160) || (c =? 5760)
+   || (8192 <=? c) && (c <=? 8202) || (c =? 8232) || (c =? 8233) || (c =? 8239) || (c =? 8287) || (c =? 12288))%N.
+
+(* Node.blank: ContentNode: `not text or text.isspace()`; OutputNode: False; the block tag of extends_tag.py: False
+   (set on purpose in BlockNode.__init__); ForNode: block.blank (no else branch in this model) *)
+Fixpoint node_blank (n : node) : bool :=
+  match n with
+  | Text s => forallb is_space_char s
+  | Var _ | Super _ => false
+  | Block _ _ _ _ => false
+  | For _ _ body => forallb node_blank body
+  end.
+
+(* the behaviour of a seeded change: the block tag takes the blankness of its body (`self.blank = block.blank`) *)
+Fixpoint node_blank_seeded (n : node) : bool :=
+  match n with
+  | Text s => forallb is_space_char s
+  | Var _ | Super _ => false
+  | Block _ _ _ body => forallb node_blank_seeded body
+  | For _ _ body => forallb node_blank_seeded body
+  end.
+
+(* ast.BlockNode.render_to_output: a blank body is rendered into a NullIO buffer -- it runs, its output is dropped *)
+Definition discard (r : res str) : res str := do _ <- r; Ok [].
+
+(* the upcase filter on the text block.super returns (str.upper on the ASCII letters; other code points: modelled as unchanged) *)
+Definition upcase_char (c : N) : N := if ((97 <=? c) && (c <=? 122))%N then (c - 32)%N else c.
+Definition post (up : bool) (r : res str) : res str := if up then (do x <- r; Ok (map upcase_char x)) else r.
+Definition wrap (blank : bool) (r : res str) : res str := if blank then discard r else r.
+
 (* ------------------------------------------------------------------------------ part 1: rendering *)
 (* the `block` drop.  Its `context` field is either the suspended context in which the block tag is being
    rendered (BlockNode.render_to_output passes `context`, not the copy it renders the body in), recorded here by
@@ -146,15 +181,19 @@ Definition seq_res {A} (f : A -> res str) : list A -> res str :=
     end.
 
 Section Exec.
+  Variable sup : bool.                                   (* env.suppress_blank_control_flow_blocks *)
+  Variable nb : node -> bool.                            (* Node.blank *)
   Variable L : nat.                                      (* env.context_depth_limit *)
   Variable st : stacks.
   Variable jump : ctx -> list node -> res str.           (* rendering of another body (one unit of fuel less) *)
+
+  Definition body_blank (body : list node) : bool := sup && forallb nb body.
 
   Fixpoint exec_node (c : ctx) (n : node) {struct n} : res str :=
     match n with
     | Text s => Ok s
     | Var x => Ok (show_var (c_env c) x)
-    | Super =>
+    | Super up => post up
         match c_block c with
         | None => Ok []                                                     (* `block` is undefined *)
         | Some (HSite e s d parents) =>
@@ -189,44 +228,60 @@ Section Exec.
         | [] => Ok []
         | _ =>
             if (L <? c_s c)%nat then Err EContextDepth                      (* context.loop -> extend *)
-            else seq_res (fun v => seq_res (fun m => exec_node {| c_env := (x, v) :: c_env c; c_s := S (c_s c);
-                                                                   c_d := c_d c; c_block := c_block c |} m) body) items
+            else seq_res (fun v => wrap (body_blank body)       (* self.block.render per item *)
+                                     (seq_res (fun m => exec_node {| c_env := (x, v) :: c_env c; c_s := S (c_s c);
+                                                                      c_d := c_d c; c_block := c_block c |} m) body)) items
         end
     end.
 
   Definition exec_nodes (c : ctx) (body : list node) : res str := seq_res (exec_node c) body.
 End Exec.
 
-Fixpoint exec (fuel : nat) (L : nat) (st : stacks) (c : ctx) (body : list node) : res str :=
+(* the body of a block tag (a definition reached through a block tag or through block.super): an ast.BlockNode *)
+Fixpoint exec_body (fuel : nat) (sup : bool) (nb : node -> bool) (L : nat) (st : stacks) (c : ctx) (body : list node)
+  : res str :=
   match fuel with
   | O => OutOfFuel
-  | S f => exec_nodes L st (exec f L st) c body
+  | S f => wrap (body_blank sup nb body) (exec_nodes sup nb L st (exec_body f sup nb L st) c body)
+  end.
+
+(* the top level of a template: BoundTemplate.nodes, rendered one by one (no blank rule) *)
+Definition exec (fuel : nat) (sup : bool) (nb : node -> bool) (L : nat) (st : stacks) (c : ctx) (nodes : list node)
+  : res str :=
+  match fuel with
+  | O => OutOfFuel
+  | S f => exec_nodes sup nb L st (exec_body f sup nb L st) c nodes
   end.
 
 (* BoundTemplate.render of a loaded template: render_with_context pushes one namespace (scope size 4 -> 5); nodes
    are rendered in order until the extends tag, which builds the stacks, renders the base template through
    render_with_context (5 -> 6) and raises StopRender *)
-Definition render_template (fuel L : nat) (ld : loader) (data : env) (t : template) : res str :=
+Definition render_template (fuel : nat) (sup : bool) (nb : node -> bool) (L : nat) (ld : loader) (data : env)
+  (t : template) : res str :=
   if (L <? 4)%nat then Err EContextDepth else
   let '(pre, ext) := split_extends t in
-  do a <- exec fuel L [] {| c_env := data; c_s := 5; c_d := 0; c_block := None |} pre;
+  do a <- exec fuel sup nb L [] {| c_env := data; c_s := 5; c_d := 0; c_block := None |} pre;
   if ext then
     do r <- build (S (S (length ld))) ld [] [] t;
     let '(base, st) := r in
     if (L <? 5)%nat then Err EContextDepth else
-    do b <- exec fuel L st {| c_env := data; c_s := 6; c_d := 0; c_block := None |} (tnodes base);
+    do b <- exec fuel sup nb L st {| c_env := data; c_s := 6; c_d := 0; c_block := None |} (tnodes base);
     Ok (a ++ b)
   else Ok a.
 
-Definition render_model (fuel L : nat) (ld : loader) (leaf : str) (data : env) : res str :=
-  do t <- load ld leaf; render_template fuel L ld data t.
+Definition render_model (fuel : nat) (sup : bool) (nb : node -> bool) (L : nat) (ld : loader) (leaf : str) (data : env)
+  : res str :=
+  do t <- load ld leaf; render_template fuel sup nb L ld data t.
 
-(* enough fuel for every input (proved in Inherit_Proofs.exec_fuel_enough) *)
+(* enough fuel for every input (proved in Inherit_Proofs.render_model_fuel) *)
 Definition fuel_bound (L : nat) : nat := ((L + 2) * (L + 3) + (L + 2)) * 2 + 2.
 
-Record icase := { k_limit : nat; k_loader : loader; k_leaf : str; k_data : env }.
+Record icase := { k_suppress : bool; k_limit : nat; k_loader : loader; k_leaf : str; k_data : env }.
 Definition run_inherit (c : icase) : res str :=
-  render_model (fuel_bound (k_limit c)) (k_limit c) (k_loader c) (k_leaf c) (k_data c).
+  render_model (fuel_bound (k_limit c)) (k_suppress c) node_blank (k_limit c) (k_loader c) (k_leaf c) (k_data c).
+(* the same with the seeded blankness of block tags (kept as the witness of what the check must notice) *)
+Definition run_inherit_seeded (c : icase) : res str :=
+  render_model (fuel_bound (k_limit c)) (k_suppress c) node_blank_seeded (k_limit c) (k_loader c) (k_leaf c) (k_data c).
 
 Definition res_str_eqb (a b : res str) : bool :=
   match a, b with
@@ -253,6 +308,8 @@ Record scur := { sc_name : str; sc_above : list template; sc_site : option env }
 Record sctx := { sc_env : env; sc_cur : option scur }.
 
 Section Spec.
+  Variable sup : bool.                                   (* blank bodies produce no output when set *)
+  Variable nb : node -> bool.
   Variable chain : list template.                        (* [] = no inheritance in effect *)
   Variable jump : sctx -> list node -> res str.
 
@@ -260,7 +317,7 @@ Section Spec.
     match n with
     | Text s => Ok s
     | Var x => Ok (show_var (sc_env c) x)
-    | Super =>
+    | Super up => post up
         match sc_cur c with
         | None => Ok []
         | Some cur =>
@@ -283,20 +340,31 @@ Section Spec.
         else jump {| sc_env := sc_env c;
                      sc_cur := Some {| sc_name := name; sc_above := above; sc_site := Some (sc_env c) |} |} (bd_body b)
     | For x items body =>
-        seq_res (fun v => seq_res (fun m => spec_node {| sc_env := (x, v) :: sc_env c; sc_cur := sc_cur c |} m) body) items
+        seq_res (fun v => wrap (body_blank sup nb body)
+                            (seq_res (fun m => spec_node {| sc_env := (x, v) :: sc_env c; sc_cur := sc_cur c |} m) body)) items
     end.
 End Spec.
 
-Fixpoint spec_exec (fuel : nat) (chain : list template) (c : sctx) (body : list node) : res str :=
+(* a definition's body: engine-wide rule -- a body all of whose nodes are blank produces no output *)
+Fixpoint spec_body (fuel : nat) (sup : bool) (nb : node -> bool) (chain : list template) (c : sctx) (body : list node)
+  : res str :=
   match fuel with
   | O => OutOfFuel
-  | S f => seq_res (spec_node chain (spec_exec f chain) c) body
+  | S f => wrap (body_blank sup nb body) (seq_res (spec_node sup nb chain (spec_body f sup nb chain) c) body)
+  end.
+
+(* the top level of a template *)
+Definition spec_exec (fuel : nat) (sup : bool) (nb : node -> bool) (chain : list template) (c : sctx) (nodes : list node)
+  : res str :=
+  match fuel with
+  | O => OutOfFuel
+  | S f => seq_res (spec_node sup nb chain (spec_body f sup nb chain) c) nodes
   end.
 
 Definition template_bad (t : template) : bool := has_dup (map bd_name (tblocks t)) || negb (parse_ok t).
 
 (* the documented result for a chain (leaf first; the last template is the root) *)
-Definition render_spec (fuel : nat) (chain : list template) (data : env) : res str :=
+Definition render_spec (fuel : nat) (sup : bool) (nb : node -> bool) (chain : list template) (data : env) : res str :=
   let c0 := {| sc_env := data; sc_cur := None |} in
   match chain with
   | [] => Err ENotFound
@@ -304,11 +372,11 @@ Definition render_spec (fuel : nat) (chain : list template) (data : env) : res s
       if negb (parse_ok leaf) then Err EInherit                              (* the leaf does not parse *)
       else match parents with
            | [] => if template_bad leaf then Err EInherit                    (* duplicate block names are rejected *)
-                   else spec_exec fuel [] c0 (tnodes leaf)
+                   else spec_exec fuel sup nb [] c0 (tnodes leaf)
            | _ =>
-               do a <- spec_exec fuel [] c0 (fst (split_extends leaf));      (* what precedes the extends tag *)
+               do a <- spec_exec fuel sup nb [] c0 (fst (split_extends leaf));      (* what precedes the extends tag *)
                if existsb template_bad chain then Err EInherit
-               else do b <- spec_exec fuel chain c0 (tnodes (last chain leaf)); Ok (a ++ b)
+               else do b <- spec_exec fuel sup nb chain c0 (tnodes (last chain leaf)); Ok (a ++ b)
            end
   end.
 
